@@ -259,11 +259,11 @@ Proof.
   intros F. unfold ttl_ceiling, neg_ttl_bound. rewrite F. destruct (first_soa ns) as [[t mn]|]; [|reflexivity].
   destruct (mn <? t) eqn:E; [apply N.ltb_lt in E | apply N.ltb_ge in E]; lia.
 Qed.
-Lemma ttl_ceiling_cur_positive ns :
+Lemma ttl_ceiling_old_positive ns :
   match first_soa ns with Some (t, mn) => 0 < t /\ 0 < mn | None => True end ->
-  ttl_ceiling cur ns = neg_ttl_bound ns.
+  ttl_ceiling old ns = neg_ttl_bound ns.
 Proof.
-  unfold ttl_ceiling, neg_ttl_bound, negative_aaaa_ttl. cbn [fx_negttl cur].
+  unfold ttl_ceiling, neg_ttl_bound, negative_aaaa_ttl. cbn [fx_negttl old].
   destruct (first_soa ns) as [[t mn]|]; [|reflexivity]. intros [Ht Hm].
   replace (0 <? mn) with true by (symmetry; apply N.ltb_lt; exact Hm). cbn [andb].
   destruct (mn <? t) eqn:E; [apply N.ltb_lt in E | apply N.ltb_ge in E].
@@ -271,9 +271,9 @@ Proof.
   - replace (0 <? t) with true by (symmetry; apply N.ltb_lt; exact Ht). lia.
 Qed.
 (* current tree: SOA TTL 3600, MINIMUM 0, one A record with TTL 300 *)
-Lemma ttl_ceiling_cur_witness :
+Lemma ttl_ceiling_old_witness :
   let ns := [Some (3600, 0)] in
-  neg_ttl_bound ns = 0 /\ synth_ttl cur ns [RA (bs "h.ex.t.") 300 [192; 0; 9; 1]] = 300.
+  neg_ttl_bound ns = 0 /\ synth_ttl old ns [RA (bs "h.ex.t.") 300 [192; 0; 9; 1]] = 300.
 Proof. split; reflexivity. Qed.
 
 Lemma filter_all P (l : list rr) : Forall (fun x => P x = true) (filter P l).
@@ -386,7 +386,7 @@ Definition ad_witness_down : msg :=
   mk_msg false 1 0 true (Some []) [RAAAA (bs "h.ex.t.") 60 (v4in6_prefix ++ [1; 2; 3; 4])] [].
 Definition ad_witness_a : msg := mk_msg false 1 0 false None [RA (bs "h.ex.t.") 300 [10; 0; 0; 1]] [].
 Lemma never_ad_witness :
-  let x := serve cur ad_witness_cf ad_witness_q (Some (ad_witness_down, 0)) false (QResp ad_witness_a) in
+  let x := serve old ad_witness_cf ad_witness_q (Some (ad_witness_down, 0)) false (QResp ad_witness_a) in
   x_path x = PFallback /\ x_reply x = Some (mk_reply false 0 true [] []).
 Proof. split; reflexivity. Qed.
 
@@ -417,20 +417,20 @@ Lemma owner_and_ttl_fixed_lem v cf q m mark work ar r o t e :
 Proof. intros F. apply owner_and_ttl_with. apply (ttl_ceiling_fixed v (m_ns m) F). Qed.
 Lemma owner_and_ttl_partial_lem cf q m mark work ar r o t e :
   soa_positive m ->
-  x_path (serve cur cf q (Some (m, mark)) work (QResp ar)) = PSynth ->
-  x_reply (serve cur cf q (Some (m, mark)) work (QResp ar)) = Some r ->
+  x_path (serve old cf q (Some (m, mark)) work (QResp ar)) = PSynth ->
+  x_reply (serve old cf q (Some (m, mark)) work (QResp ar)) = Some r ->
   In (RAAAA o t e) (r_answer r) ->
   (exists ta ip, In (RA o ta ip) (m_answer ar))
   /\ (forall o' ta ip, In (RA o' ta ip) (m_answer ar) -> t <= ta)
   /\ t <= spec_negative_ttl m.
-Proof. intros F. apply owner_and_ttl_with. apply (ttl_ceiling_cur_positive (m_ns m) F). Qed.
+Proof. intros F. apply owner_and_ttl_with. apply (ttl_ceiling_old_positive (m_ns m) F). Qed.
 
 Definition ttl_witness_down : msg := mk_msg false 1 0 true (Some []) [] [Some (3600, 0)].
 Definition ttl_witness_a : msg := mk_msg false 1 0 false None [RA (bs "h.ex.t.") 300 [192; 0; 9; 1]; RA (bs "h.ex.t.") 300 [10; 0; 0; 1]] [].
 Lemma owner_and_ttl_refuted_lem :
   exists cf q m mark work ar r o t e,
-    x_path (serve cur cf q (Some (m, mark)) work (QResp ar)) = PSynth
-    /\ x_reply (serve cur cf q (Some (m, mark)) work (QResp ar)) = Some r
+    x_path (serve old cf q (Some (m, mark)) work (QResp ar)) = PSynth
+    /\ x_reply (serve old cf q (Some (m, mark)) work (QResp ar)) = Some r
     /\ In (RAAAA o t e) (r_answer r)
     /\ spec_negative_ttl m < t.
 Proof.
@@ -453,18 +453,32 @@ Qed.
 
 Lemma never_ad_refuted_lem :
   exists cf q down work al r,
-    x_reply (serve cur cf q down work al) = Some r /\ r_same r = false /\ r_ad r = true.
+    x_reply (serve old cf q down work al) = Some r /\ r_same r = false /\ r_ad r = true.
 Proof.
   exists ad_witness_cf, ad_witness_q, (Some (ad_witness_down, 0)), false, (QResp ad_witness_a). eexists.
   split; [reflexivity|]. split; reflexivity.
 Qed.
 
 Lemma never_ad_partial_lem cf q down work al r :
-  x_reply (serve cur cf q down work al) = Some r -> r_same r = false ->
-  x_path (serve cur cf q down work al) <> PFallback ->
+  x_reply (serve old cf q down work al) = Some r -> r_same r = false ->
+  x_path (serve old cf q down work al) <> PFallback ->
   r_ad r = false.
-Proof. intros H1 H2 H3. exact (never_ad_gen cur cf q down work al r H1 H2 (or_intror H3)). Qed.
+Proof. intros H1 H2 H3. exact (never_ad_gen old cf q down work al r H1 H2 (or_intror H3)). Qed.
 Lemma never_ad_fixed_lem v cf q down work al r :
   fx_fallback_ad v = true ->
   x_reply (serve v cf q down work al) = Some r -> r_same r = false -> r_ad r = false.
 Proof. intros F H1 H2. exact (never_ad_gen v cf q down work al r H1 H2 (or_introl F)). Qed.
+
+(* ---------------- the tree as it is ---------------- *)
+Lemma owner_and_ttl_now cf q m mark work ar r o t e :
+  x_path (serve cur cf q (Some (m, mark)) work (QResp ar)) = PSynth ->
+  x_reply (serve cur cf q (Some (m, mark)) work (QResp ar)) = Some r ->
+  In (RAAAA o t e) (r_answer r) ->
+  (exists ta ip, In (RA o ta ip) (m_answer ar))
+  /\ (forall o' ta ip, In (RA o' ta ip) (m_answer ar) -> t <= ta)
+  /\ t <= spec_negative_ttl m.
+Proof. apply owner_and_ttl_fixed_lem. reflexivity. Qed.
+
+Lemma never_ad_now cf q down work al r :
+  x_reply (serve cur cf q down work al) = Some r -> r_same r = false -> r_ad r = false.
+Proof. apply never_ad_fixed_lem. reflexivity. Qed.
